@@ -6,6 +6,9 @@
 //! optional 4th token: `asset v t f` / `pt v t f` (asset only) = free balance `f` != total;
 //! `pos d t te` = time_enter `te` != time_exit,
 //! `gen!` (generate on the tear sheet itself). Times are milliseconds since the Unix epoch.
+//! `sum <t0> <x|n> I <e:b:q>... B <e:a:v>...` opens the multi-key mode (one `TradingSummaryGenerator`
+//! from a real `EngineState`), then `bal e:a v t [f]`, `cls k d t [te]`, `gen [d|a252|a365]`, `gen! [..]`;
+//! every key's lines are prefixed `a<j>.` / `i<k>.` (see `Sum`).
 use barter::{
     Timed,
     engine::state::position::PositionExited,
@@ -15,10 +18,20 @@ use barter::{
             max::{MaxDrawdown, MaxDrawdownGenerator},
             mean::{MeanDrawdown, MeanDrawdownGenerator},
         },
-        summary::{asset::TearSheetAssetGenerator, instrument::TearSheetGenerator},
-        time::Daily,
+        summary::{TradingSummaryGenerator, asset::TearSheetAssetGenerator, instrument::TearSheetGenerator},
+        time::{Annual252, Annual365, Daily},
     },
 };
+use barter::engine::state::{
+    EngineState, global::DefaultGlobalData, instrument::data::DefaultInstrumentMarketData,
+};
+use barter_instrument::{
+    Keyed, Underlying,
+    asset::{ExchangeAsset, name::AssetNameInternal},
+    index::IndexedInstruments,
+    instrument::{Instrument, name::InstrumentNameInternal},
+};
+use vh::engine_util::EXCHANGES;
 use barter_execution::{
     balance::{AssetBalance, Balance},
     trade::AssetFees,
@@ -100,6 +113,221 @@ enum Driven {
     Raw(DrawdownGenerator, MeanDrawdownGenerator, MaxDrawdownGenerator),
     Asset(TearSheetAssetGenerator),
     Instr(TearSheetGenerator),
+    Sum(Sum),
+}
+
+/// `sum` mode (configuration-shape family): ONE `TradingSummaryGenerator` over several assets and
+/// instruments, initialised from a real `EngineState` (built with or without initial balances), each key
+/// with its own curve. Labels (`e:a` for assets, `k` for instruments) are resolved to the real indices by
+/// NAME; updates go through the summary's index-keyed (`x`) or name-keyed (`n`) managers; every sheet is
+/// read back by name after every op (isolation).
+struct Sum {
+    summary: TradingSummaryGenerator,
+    by_name: bool,
+    /// asset labels (exchange label, asset label) in order of first appearance in the `sum` line
+    assets: Vec<(usize, usize)>,
+    n_instr: usize,
+    /// the ENGINE STATE's index of every asset / instrument label (what an `AssetBalance<AssetIndex>` /
+    /// `PositionExited<_, InstrumentIndex>` of that engine carries)
+    asset_idx: Vec<usize>,
+    instr_idx: Vec<usize>,
+}
+
+fn asset_key(a: &(usize, usize)) -> ExchangeAsset<AssetNameInternal> {
+    ExchangeAsset::new(EXCHANGES[a.0], AssetNameInternal::new(format!("a{}", a.1)))
+}
+
+/// internal name of instrument label `k`: alphabetical order differs from label order (and from the index
+/// order), so a table ordered by name but addressed by index is exposed
+fn instr_name(k: usize) -> InstrumentNameInternal {
+    InstrumentNameInternal::new(format!("{}{k}", ["q", "c", "x", "a", "m", "e", "z", "b"][k % 8]))
+}
+
+fn parse_triple(t: &str) -> Option<(usize, usize, &str)> {
+    let f: Vec<&str> = t.split(':').collect();
+    if f.len() != 3 {
+        return None;
+    }
+    Some((f[0].parse().ok()?, f[1].parse().ok()?, f[2]))
+}
+
+fn is_dec(s: &str) -> bool {
+    s.parse::<Decimal>().is_ok()
+}
+
+/// `sum <t0> <x|n> I <e:b:q>... B <e:a:v>...`
+fn init_sum(toks: &[&str]) -> Option<Sum> {
+    if toks.len() < 5 || toks[3] != "I" {
+        return None;
+    }
+    let t0: i64 = toks[1].parse().ok()?;
+    let by_name = match toks[2] {
+        "x" => false,
+        "n" => true,
+        _ => return None,
+    };
+    let bpos = toks.iter().position(|t| *t == "B")?;
+    let insts = &toks[4..bpos];
+    if insts.is_empty() || insts.len() > 8 {
+        return None;
+    }
+    let mut builder = IndexedInstruments::builder();
+    let mut assets: Vec<(usize, usize)> = vec![];
+    for (k, t) in insts.iter().enumerate() {
+        let (e, b, q) = parse_triple(t)?;
+        let q: usize = q.parse().ok()?;
+        if e >= EXCHANGES.len() || b == q {
+            return None;
+        }
+        for a in [(e, b), (e, q)] {
+            if !assets.contains(&a) {
+                assets.push(a);
+            }
+        }
+        builder = builder.add_instrument(Instrument::spot(
+            EXCHANGES[e],
+            instr_name(k).0,
+            format!("I{k}"),
+            Underlying::new(format!("a{b}"), format!("a{q}")),
+            None,
+        ));
+    }
+    let mut inits: Vec<((usize, usize), Decimal)> = vec![];
+    for t in &toks[bpos + 1..] {
+        let (e, a, v) = parse_triple(t)?;
+        if !assets.contains(&(e, a)) || inits.iter().any(|(k, _)| *k == (e, a)) || !is_dec(v) {
+            return None;
+        }
+        inits.push(((e, a), parse_dec(v)));
+    }
+    let instruments = builder.build();
+    let state: EngineState<DefaultGlobalData, DefaultInstrumentMarketData> = EngineState::builder(
+        &instruments,
+        DefaultGlobalData::default(),
+        DefaultInstrumentMarketData::default,
+    )
+    .time_engine_start(time(t0))
+    .balances(inits.iter().map(|(a, v)| Keyed::new(asset_key(a), Balance::new(*v, *v))))
+    .build();
+    let summary = TradingSummaryGenerator::init(Decimal::ZERO, time(t0), time(t0), &state.instruments, &state.assets);
+    let asset_idx = assets.iter().map(|a| state.assets.0.get_index_of(&asset_key(a)).expect("asset in the engine state")).collect();
+    let instr_idx = (0..insts.len())
+        .map(|k| state.instruments.0.values().position(|s| s.instrument.name_internal == instr_name(k)).expect("instrument in the engine state"))
+        .collect();
+    Some(Sum { summary, by_name, assets, n_instr: insts.len(), asset_idx, instr_idx })
+}
+
+fn prefixed(pfx: String, f: impl FnOnce(&mut Vec<String>), lines: &mut Vec<String>) {
+    let mut tmp = vec![];
+    f(&mut tmp);
+    lines.extend(tmp.into_iter().map(|l| format!("{pfx}.{l}")));
+}
+
+fn obs_sum(s: &Sum, lines: &mut Vec<String>) {
+    for (j, a) in s.assets.iter().enumerate() {
+        let ts = s.summary.assets.get(&asset_key(a)).expect("asset sheet by name");
+        prefixed(format!("a{j}"), |l| obs_sheet(&ts.drawdown, &ts.drawdown_mean, &ts.drawdown_max, l), lines);
+    }
+    for k in 0..s.n_instr {
+        let ts = s.summary.instruments.get(&instr_name(k)).expect("instrument sheet by name");
+        prefixed(format!("i{k}"), |l| obs_sheet(&ts.pnl_drawdown, &ts.pnl_drawdown_mean, &ts.pnl_drawdown_max, l), lines);
+    }
+}
+
+/// generate on `g` (a clone for `gen`, the summary itself for `gen!`) and report every key by name
+fn report_sum(s_assets: &[(usize, usize)], n_instr: usize, g: &mut TradingSummaryGenerator, iv: &str, lines: &mut Vec<String>) {
+    // (asset reports, instrument reports) by name, whatever the interval type
+    macro_rules! go {
+        ($iv:expr) => {{
+            let sum = g.generate($iv);
+            for (j, a) in s_assets.iter().enumerate() {
+                let sheet = sum.assets.get(&asset_key(a)).expect("asset report by name");
+                let count = g.assets.get(&asset_key(a)).unwrap().drawdown_mean.count;
+                prefixed(format!("a{j}"), |l| obs_report(sheet.drawdown.as_ref(), count, sheet.drawdown_max.clone(), sheet.drawdown_mean.clone(), l), lines);
+            }
+            for k in 0..n_instr {
+                let sheet = sum.instruments.get(&instr_name(k)).expect("instrument report by name");
+                let count = g.instruments.get(&instr_name(k)).unwrap().pnl_drawdown_mean.count;
+                prefixed(format!("i{k}"), |l| obs_report(sheet.pnl_drawdown.as_ref(), count, sheet.pnl_drawdown_max.clone(), sheet.pnl_drawdown_mean.clone(), l), lines);
+            }
+        }};
+    }
+    match iv {
+        "a252" => go!(Annual252),
+        "a365" => go!(Annual365),
+        _ => go!(Daily),
+    }
+}
+
+fn iv_ok(toks: &[&str]) -> Option<&'static str> {
+    match toks {
+        [_] | [_, "d"] => Some("d"),
+        [_, "a252"] => Some("a252"),
+        [_, "a365"] => Some("a365"),
+        _ => None,
+    }
+}
+
+/// ops of the `sum` mode; `false` = malformed (`bad-op`)
+fn sum_op(s: &mut Sum, toks: &[&str], lines: &mut Vec<String>) -> bool {
+    match toks {
+        ["bal", label, v, t] | ["bal", label, v, t, _] => {
+            let f: Vec<&str> = label.split(':').collect();
+            let (Some(e), Some(a)) = (f.first().and_then(|x| x.parse::<usize>().ok()), f.get(1).and_then(|x| x.parse::<usize>().ok())) else { return false };
+            let Ok(t) = t.parse::<i64>() else { return false };
+            if f.len() != 2 || !s.assets.contains(&(e, a)) || !is_dec(v) || toks.get(4).map(|f| !is_dec(f)).unwrap_or(false) {
+                return false;
+            }
+            let total = parse_dec(v);
+            let free = toks.get(4).map(|f| parse_dec(f)).unwrap_or(total);
+            let key = asset_key(&(e, a));
+            if s.by_name {
+                let b = AssetBalance { asset: key, balance: Balance::new(total, free), time_exchange: time(t) };
+                s.summary.update_from_balance(Snapshot(&b));
+            } else {
+                let idx = s.asset_idx[s.assets.iter().position(|x| *x == (e, a)).unwrap()];
+                let b = AssetBalance { asset: AssetIndex(idx), balance: Balance::new(total, free), time_exchange: time(t) };
+                s.summary.update_from_balance(Snapshot(&b));
+            }
+            obs_sum(s, lines);
+            true
+        }
+        ["cls", k, d, t] | ["cls", k, d, t, _] => {
+            let (Ok(k), Ok(t)) = (k.parse::<usize>(), t.parse::<i64>()) else { return false };
+            let te = match toks.get(4) {
+                None => t,
+                Some(x) => match x.parse::<i64>() {
+                    Ok(x) => x,
+                    Err(_) => return false,
+                },
+            };
+            if k >= s.n_instr || !is_dec(d) {
+                return false;
+            }
+            if s.by_name {
+                s.summary.update_from_position(&position_of(instr_name(k), parse_dec(d), time(t), time(te)));
+            } else {
+                let idx = s.instr_idx[k];
+                s.summary.update_from_position(&position_of(InstrumentIndex(idx), parse_dec(d), time(t), time(te)));
+            }
+            obs_sum(s, lines);
+            true
+        }
+        ["gen", ..] => {
+            let Some(iv) = iv_ok(toks) else { return false };
+            let mut c = s.summary.clone();
+            report_sum(&s.assets, s.n_instr, &mut c, iv, lines);
+            true
+        }
+        ["gen!", ..] => {
+            let Some(iv) = iv_ok(toks) else { return false };
+            let (assets, n) = (s.assets.clone(), s.n_instr);
+            report_sum(&assets, n, &mut s.summary, iv, lines);
+            obs_sum(s, lines);
+            true
+        }
+        _ => false,
+    }
 }
 
 /// A closed position with realised PnL `pnl`, exited at `t`. The entry notional is huge (1e27) so
@@ -111,8 +339,17 @@ fn position(
     t: DateTime<Utc>,
     t_enter: DateTime<Utc>,
 ) -> PositionExited<AssetIndex, InstrumentIndex> {
+    position_of(InstrumentIndex(0), pnl, t, t_enter)
+}
+
+fn position_of<K>(
+    instrument: K,
+    pnl: Decimal,
+    t: DateTime<Utc>,
+    t_enter: DateTime<Utc>,
+) -> PositionExited<AssetIndex, K> {
     PositionExited {
-        instrument: InstrumentIndex(0),
+        instrument,
         side: Side::Buy,
         price_entry_average: Decimal::from_i128_with_scale(10i128.pow(27), 0),
         quantity_abs_max: Decimal::ONE,
@@ -173,6 +410,18 @@ fn run() {
                         lines,
                     );
                     driven = Driven::Instr(ts);
+                }
+                (Driven::Unset, ["sum", ..]) => match init_sum(&toks) {
+                    Some(s) => {
+                        obs_sum(&s, lines);
+                        driven = Driven::Sum(s);
+                    }
+                    None => lines.push("bad-op".into()),
+                },
+                (Driven::Sum(s), _) => {
+                    if !sum_op(s, &toks, lines) {
+                        lines.push("bad-op".into());
+                    }
                 }
                 (Driven::Raw(g, mean, max), ["pt", v, t]) => {
                     let emitted = g.update(Timed::new(parse_dec(v), time(t.parse().unwrap())));
@@ -424,7 +673,127 @@ fn generate(seed: u64, n_cases: usize, tier: &str) {
         emit_case(&mut out, &format!("r{id}"), mode, &vals, &ts, &gens);
     }
     domain_family(&mut out, seed, n_cases, tier);
+    config_family(&mut out, seed, n_cases, tier);
     out.flush();
+}
+
+/// Configuration shapes the other families never assemble (configuration-shape audit), separately seeded
+/// family `s<k>`: ONE `TradingSummaryGenerator` initialised from a real `EngineState` over 1-4 instruments
+/// spread (interleaved) over 1-3 exchanges and their 2-8 assets; assets with / without an initial balance
+/// in the engine state (a sheet that starts from `default()` and sees its first value through
+/// `update_from_balance`, vs one that holds the builder's point at `time_engine_start`); every key with its
+/// own curve, updates interleaved across keys, addressed by index (`x`) or by name (`n`); `gen` / `gen!`
+/// with the three interval types; `time_engine_start` before, at and after the first points.
+fn config_family(out: &mut Out, seed: u64, n_cases: usize, tier: &str) {
+    let mut rng = Rng::new(seed ^ 0xC0F1_18C0_F118);
+    let extra = (n_cases / 10).max(if n_cases > 0 { 6 } else { 0 });
+    let max_len = if tier == "thorough" { 25 } else { 12 };
+    for k in 0..extra {
+        out.case(format!("s{}", k + 1));
+        let n_instr = rng.range(1, 4) as usize;
+        let n_ex = rng.range(1, 3) as usize;
+        let mut insts: Vec<(usize, usize, usize)> = vec![];
+        let mut assets: Vec<(usize, usize)> = vec![];
+        for _ in 0..n_instr {
+            // exchanges drawn independently: label order is not the (exchange-sorted) index order
+            let e = rng.below(n_ex as u64) as usize;
+            let b = rng.below(3) as usize;
+            let q = 3 + rng.below(2) as usize;
+            insts.push((e, b, q));
+            for a in [(e, b), (e, q)] {
+                if !assets.contains(&a) {
+                    assets.push(a);
+                }
+            }
+        }
+        let (mul, scale) = *rng.pick(&[(1i64, 0u32), (1, 0), (5, 1), (25, 2), (10, 0)]);
+        let step = *rng.pick(&[1i64, 1000, 60_000]);
+        let t0 = *rng.pick(&[0i64, 0, -1000, 5, 10_000_000]);
+        let init_pct = *rng.pick(&[0u64, 40, 40, 100]);
+        let mut line = format!("sum {t0} {} I", if rng.chance(35) { "n" } else { "x" });
+        for (e, b, q) in insts.iter() {
+            line.push_str(&format!(" {e}:{b}:{q}"));
+        }
+        line.push_str(" B");
+        // initial balances in an order of their own (the builder keeps them in a hash map)
+        let mut order: Vec<usize> = (0..assets.len()).collect();
+        for i in (1..order.len()).rev() {
+            order.swap(i, rng.below(i as u64 + 1) as usize);
+        }
+        for j in order {
+            if rng.chance(init_pct) {
+                line.push_str(&format!(" {}:{}:{}", assets[j].0, assets[j].1, dec_str(rng.range(1, 8) * mul, scale)));
+            }
+        }
+        out.line(line);
+        // one script per key, interleaved at random
+        let mut scripts: Vec<Vec<String>> = vec![];
+        for a in assets.iter() {
+            let len = rng.range(0, max_len) as usize;
+            let levels = curve(&mut rng, len);
+            let ts = times(&mut rng, len);
+            scripts.push(
+                (0..len)
+                    .map(|i| {
+                        let v = dec_str(levels[i] * mul, scale);
+                        if rng.chance(10) {
+                            format!("bal {}:{} {v} {} {}", a.0, a.1, ts[i] * step, dec_str(levels[i] * mul / 2, scale))
+                        } else {
+                            format!("bal {}:{} {v} {}", a.0, a.1, ts[i] * step)
+                        }
+                    })
+                    .collect(),
+            );
+        }
+        for k in 0..n_instr {
+            let len = rng.range(0, max_len) as usize;
+            let levels = curve(&mut rng, len);
+            let ts = times(&mut rng, len);
+            let mut prev = 0i64;
+            scripts.push(
+                (0..len)
+                    .map(|i| {
+                        let d = dec_str((levels[i] - prev) * mul, scale);
+                        prev = levels[i];
+                        if rng.chance(10) {
+                            format!("cls {k} {d} {} {}", ts[i] * step, ts[i] * step - 1000)
+                        } else {
+                            format!("cls {k} {d} {}", ts[i] * step)
+                        }
+                    })
+                    .collect(),
+            );
+        }
+        let gen_pct = *rng.pick(&[0u64, 8, 20]);
+        let mut cursors = vec![0usize; scripts.len()];
+        let gen_line = |rng: &mut Rng| -> String {
+            let g = if rng.chance(12) { "gen!" } else { "gen" };
+            match rng.below(4) {
+                0 => format!("{g} a252"),
+                1 => format!("{g} a365"),
+                2 => format!("{g} d"),
+                _ => g.to_string(),
+            }
+        };
+        if rng.chance(15) {
+            out.line(gen_line(&mut rng)); // before any update
+        }
+        loop {
+            let live: Vec<usize> = (0..scripts.len()).filter(|i| cursors[*i] < scripts[*i].len()).collect();
+            if live.is_empty() {
+                break;
+            }
+            let i = *rng.pick(&live);
+            out.line(&scripts[i][cursors[i]]);
+            cursors[i] += 1;
+            if rng.chance(gen_pct) {
+                out.line(gen_line(&mut rng));
+            }
+        }
+        if rng.chance(85) {
+            out.line(*rng.pick(&["gen", "gen", "gen a365", "gen a252"]));
+        }
+    }
 }
 
 /// Input classes the main generator never produced (input-domain audit), as a separately seeded
